@@ -31,6 +31,7 @@ Inductive gclass :=
 | GFlatRawWindow           (* whole-tensor (all-axes) reduction over the raw storage window of a tensor whose window is not its logical content *)
 | GShapeMisfit             (* operands whose shapes do not fit the operation *)
 | GAliasedStorage          (* data is physically moved under other live tensors that view the same storage *)
+| GLateRefusal             (* Reshape refuses only in sanity(), after the new shape has been installed *)
 | GOther.
 
 Definition slice_count_zero (s : slice) (dim : Z) : bool :=
